@@ -71,12 +71,20 @@ type scenario struct {
 	Yield  int64 // != 0: the CAS fake yields the processor pseudo-randomly
 }
 
-// fault makes the K-th call of a kind fail or cancel the request context.
+// fault makes the K-th call of a kind fail, fail while cancelling the
+// request context ("cancel"), or succeed with the request context being
+// cancelled before the call returns ("okcancel": a cancellation that no
+// storage call reports).
 type fault struct {
 	Kind string // batch.fm | batch.put | caching.put | ac.put
 	K    int
-	What string // fail | cancel
+	What string // fail | cancel | okcancel
 }
+
+var faultKinds = []string{"fail", "cancel", "okcancel"}
+
+// succeeded: the storage call itself did what it was asked to do.
+func succeeded(res string) bool { return res == "ok" || res == "okcancel" }
 
 type call struct {
 	Kind string
@@ -166,6 +174,15 @@ func (w *world) outcome(ctx context.Context, kind string) (string, int) {
 	return res, k
 }
 
+// after is called (w.mu held) when a storage call has done its work: an
+// "okcancel" call cancels the request context now, so that the caller
+// finds it cancelled when the call returns.
+func (w *world) after(res string) {
+	if res == "okcancel" {
+		w.cancel()
+	}
+}
+
 func errorFor(res string) error {
 	switch res {
 	case "fail":
@@ -213,16 +230,17 @@ func (v *casView) Get(ctx context.Context, d digest.Digest) buffer.Buffer {
 	defer w.mu.Unlock()
 	res, k := w.outcome(ctx, v.via+".get")
 	n := nameOf(d, "hist")
-	if res == "ok" && !w.cas[n] {
+	if succeeded(res) && !w.cas[n] {
 		res = "notfound"
 	}
 	w.tr.Emit(common.Ev{"ev": "cas", "via": v.via, "op": "get", "ds": []string{n}, "res": res, "missing": []string{}, "k": k})
-	if res == "ok" {
+	w.after(res)
+	if succeeded(res) {
 		if data, ok := blobData[n]; ok {
 			return buffer.NewValidatedBufferFromByteSlice(data)
 		}
 	}
-	if res == "notfound" || res == "ok" {
+	if res == "notfound" || succeeded(res) {
 		return buffer.NewBufferFromError(status.Error(codes.NotFound, "blob not found"))
 	}
 	return buffer.NewBufferFromError(errorFor(res))
@@ -239,7 +257,7 @@ func (v *casView) Put(ctx context.Context, d digest.Digest, b buffer.Buffer) err
 	defer w.mu.Unlock()
 	res, k := w.outcome(ctx, v.via+".put")
 	n := nameOf(d, "hist")
-	if res == "ok" {
+	if succeeded(res) {
 		// Consuming the buffer validates the contents against the digest.
 		if _, err := b.ToByteSlice(1 << 20); err != nil {
 			res = "baddata"
@@ -250,6 +268,7 @@ func (v *casView) Put(ctx context.Context, d digest.Digest, b buffer.Buffer) err
 		b.Discard()
 	}
 	w.tr.Emit(common.Ev{"ev": "cas", "via": v.via, "op": "put", "ds": []string{n}, "res": res, "missing": []string{}, "k": k})
+	w.after(res)
 	if res == "baddata" {
 		return status.Error(codes.InvalidArgument, "contents do not match digest")
 	}
@@ -268,13 +287,14 @@ func (v *casView) FindMissing(ctx context.Context, digests digest.Set) (digest.S
 	for _, d := range digests.Items() {
 		n := nameOf(d, "hist")
 		ds = append(ds, n)
-		if res == "ok" && !w.cas[n] {
+		if succeeded(res) && !w.cas[n] {
 			missing = append(missing, n)
 			mb.Add(d)
 		}
 	}
 	w.tr.Emit(common.Ev{"ev": "cas", "via": v.via, "op": "fm", "ds": ds, "res": res, "missing": missing, "k": k})
-	if res != "ok" {
+	w.after(res)
+	if !succeeded(res) {
 		return digest.EmptySet, errorFor(res)
 	}
 	return mb.Build(), nil
@@ -297,6 +317,7 @@ func (a *acFake) other(ctx context.Context, op string) string {
 	defer w.mu.Unlock()
 	res, k := w.outcome(ctx, "ac."+op)
 	w.tr.Emit(common.Ev{"ev": "ac", "op": op, "res": res, "result": emptyResult(), "k": k})
+	w.after(res)
 	return res
 }
 
@@ -354,13 +375,14 @@ func (a *acFake) Put(ctx context.Context, d digest.Digest, b buffer.Buffer) erro
 	p := emptyResult()
 	if m, err := b.ToProto(&remoteexecution.ActionResult{}, 1<<20); err == nil {
 		p = projectResult(m.(*remoteexecution.ActionResult))
-	} else if res == "ok" {
+	} else if succeeded(res) {
 		res = "baddata"
 	}
-	if res == "ok" {
+	if succeeded(res) {
 		w.ac = append(w.ac, p)
 	}
 	w.tr.Emit(common.Ev{"ev": "ac", "op": "put", "res": res, "result": p, "k": k})
+	w.after(res)
 	if res == "baddata" {
 		return status.Error(codes.InvalidArgument, "not an ActionResult")
 	}
@@ -608,7 +630,7 @@ func runOne(t *testing.T, tr *common.Trace, sc *scenario, script []fault) []call
 }
 
 // explore runs the scenario without faults and then, depth-first, with a
-// fault (fail and cancel) at every storage call that a run made after
+// fault (fail, cancel and okcancel) at every storage call that a run made after
 // its last injected fault, up to `depth` faults per run.
 func explore(t *testing.T, tr *rotatingTrace, sc *scenario, depth int, runs *int) {
 	var rec func(script []fault)
@@ -635,7 +657,7 @@ func explore(t *testing.T, tr *rotatingTrace, sc *scenario, depth int, runs *int
 			if c.Res == "ctxdone" {
 				continue
 			}
-			for _, what := range []string{"fail", "cancel"} {
+			for _, what := range faultKinds {
 				next := append(append([]fault{}, script...), fault{c.Kind, c.K, what})
 				rec(next)
 			}
@@ -809,8 +831,11 @@ func TestRandom(t *testing.T) {
 					maxK = 1 + len(sc.Puts)
 				}
 				what := "fail"
-				if rng.Intn(3) == 0 {
+				switch rng.Intn(6) {
+				case 0, 1:
 					what = "cancel"
+				case 2:
+					what = "okcancel"
 				}
 				script = append(script, fault{kind, 1 + rng.Intn(maxK), what})
 			}
